@@ -209,6 +209,9 @@ func main() {
 			if len(r.Unsup) > 0 || len(r.CErrs) > 0 {
 				bad++
 			}
+			for n := range r.Exec.stale {
+				fmt.Printf("  NOTE stale-contract: %s\n", n)
+			}
 			for _, o := range r.Obls {
 				ok := o.Status == "proved" || o.Status == "covered"
 				if o.Expect == "sat" && o.Status == "uncovered" {
